@@ -862,7 +862,7 @@ pub fn run(args: &Args) -> i32 {
                                             p.negated_leaves(true, &mut neg);
                                             ix.is_some() && neg.iter().any(|(k, c)| *c == on_col && matches!(*k, "eq" | "in")) && n > ids.len()
                                         };
-                                        let df_full = if p.has_mergeable_inlists_same_column() { df.ids_where_full_sql(&sql).await.ok().map(|s| s.len()) } else { None };
+                                        let df_full = if !p.mergeable_inlist_columns(false).is_empty() { df.ids_where_full_sql(&sql).await.ok().map(|s| s.len()) } else { None };
                                         let stale = ix.is_some() && t.ds.manifest().uses_stable_row_ids() && {
                                             let mut c = BTreeSet::new();
                                             p.columns(&mut c);
